@@ -855,7 +855,90 @@ func tlvSpec(g *gen.FieldGen, depth int) (*impl.Tree, *impl.Tree) {
 	return nil, nil
 }
 
+// checkSetBytes: what Bytes() of a populated composite returns is accepted by SetBytes of a new
+// composite of the spec and yields the same subfields as unpacking the packed field does (the
+// composite's own declared maximum, if any, is the one Pack just enforced).
+func checkSetBytes(rep *Reporter, spec, v *impl.Tree) {
+	line := fmt.Sprintf("F %s pack %s #then-SetBytes(Bytes())", spec.String(), v.String())
+	safely(rep, line, func() {
+		f1, ok := impl.FieldOfTree(spec)
+		if !ok || !setVal(f1, v) {
+			return
+		}
+		packed, err := f1.Pack()
+		if err != nil {
+			return
+		}
+		c1 := f1.(*field.Composite)
+		body, err := c1.Bytes()
+		if err != nil {
+			return
+		}
+		f2, _ := impl.FieldOfTree(spec)
+		if _, err := f2.Unpack(packed); err != nil {
+			return
+		}
+		f3, _ := impl.FieldOfTree(spec)
+		c3 := f3.(*field.Composite)
+		rep.Case(line)
+		if err := c3.SetBytes(body); err != nil {
+			rep.Viol("SetBytes rejects the bytes Bytes() of a composite of the same spec returned", line, fmt.Sprintf("body %x: %v", body, err))
+			return
+		}
+		if a, b := impl.ValueTree(f2).String(), impl.ValueTree(c3).String(); a != b {
+			rep.Viol("SetBytes(Bytes()) yields other subfields than Unpack(Pack())", line, fmt.Sprintf("Unpack: %s SetBytes: %s", a, b))
+		}
+	})
+}
+
+// checkDerivedSpec: a spec derived from one that is already in use - a copy of the *field.Spec
+// struct with a subfield removed - packs its own subfields in its own order, exactly like the
+// same spec written out from scratch.
+func checkDerivedSpec(rep *Reporter, g *gen.FieldGen, spec *impl.Tree) {
+	if len(spec.Kids) < 5 {
+		return
+	}
+	base, ok := impl.FieldOfTree(spec)
+	if !ok {
+		return
+	}
+	_ = setVal(base, g.Value(spec, false))
+	_, _ = base.Pack() // the base spec has been used
+	drop := 3 + g.R.Intn(len(spec.Kids)-3)
+	derivedT := &impl.Tree{Name: spec.Name}
+	for i, k := range spec.Kids {
+		if i != drop {
+			derivedT.Kids = append(derivedT.Kids, k)
+		}
+	}
+	v := g.Value(derivedT, false)
+	line := fmt.Sprintf("F %s pack %s #spec-derived-by-struct-copy-from %s", derivedT.String(), v.String(), spec.String())
+	safely(rep, line, func() {
+		cp := *base.Spec()
+		cp.Subfields = map[string]field.Field{}
+		for k, sf := range base.Spec().Subfields {
+			if k != spec.Kids[drop].Kids[0].Name {
+				cp.Subfields[k] = sf
+			}
+		}
+		derived := field.NewComposite(&cp)
+		scratch, ok := impl.FieldOfTree(derivedT)
+		if !ok || !setVal(derived, v) || !setVal(scratch, v) {
+			return
+		}
+		p1, e1 := derived.Pack()
+		p2, e2 := scratch.Pack()
+		rep.Case(line)
+		if (e1 == nil) != (e2 == nil) || !bytes.Equal(p1, p2) {
+			rep.Viol("a spec derived by copying a used spec and removing a subfield packs differently from the same spec written from scratch", line,
+				fmt.Sprintf("derived: %x %v | from scratch: %x %v", p1, e1, p2, e2))
+		}
+	})
+}
+
 func examineSpec(rep *Reporter, t gen.Tier, g *gen.FieldGen, spec, mode *impl.Tree, maxElems int) {
+	checkSetBytes(rep, spec, g.Value(spec, false))
+	checkDerivedSpec(rep, g, spec)
 	r := g.R
 	sortKind := mode.Kids[3].Name
 	elems := buildElems(g, spec, mode, maxElems)
